@@ -31,6 +31,10 @@ CHECKS = {
          "CRC-32 and the s15.5 rule written in TLA+; TLC trace validation of the setter's bytes, of Check on every single-bit flip (exhaustive per message) and random bursts of fingerprinted messages, and on arbitrary messages with FINGERPRINT attributes incl. near-miss CRC spans",
          "Check = nil iff the reference (first FINGERPRINT is 4 bytes and equals CRC-32 of everything before the last 8 raw bytes, XOR 0x5354554e) says so on every recorded variant; the detection clause is checked directly on every flip/burst in which FINGERPRINT stays the only such attribute; setter output equals the reference bytes.",
          "Trusted: the TLA+ CRC-32 (bit-serial definition, table form checked equal), StunAuth as the reading of s15.5, TLC, the harness."),
+ "C18": (True, "DESIGN.md §4 C18",
+         "TLC exhaustive check of the implementation-shaped HmacPool model (all reuse histories, abstract digests); its transition cover replayed through AcquireSHA1/SHA256..Put on the real pool; every recorded digest recomputed by a TLA+ trace specification from HMAC/SHA-1/SHA-256 written in TLA+; 16 goroutines under -race",
+         "Every digest the pooled API produced in the replayed and random histories equals RFC 2104 HMAC of (key of the current acquisition, chunks since the last reset) as computed by TLC; the design model proves Sum = HMAC for every reuse history of two pooled objects (marshaled-state cache, re-keying).",
+         "Trusted: TLA+ transcriptions of SHA-1/SHA-256/HMAC (validated against FIPS/RFC vectors), TLC, the harness; race freedom only on executed schedules (Go race detector)."),
 }
 
 ALL = ["C%02d" % i for i in range(1, 21)]
